@@ -23,6 +23,7 @@ RULE = (
     "the byte '*'). Non-trivial = payload with a non-ASCII or escaped character, or an offset chain."
 )
 RULE += (" Every payload length 1..130 is swept for every chain, and a quarter of the random payloads has 20-300 characters.")
+RULE += (" Chains with the base64 modifier twice: Base64 of the Base64 text.")
 ASSUMPTIONS = [
     "python's base64 and codecs are the standard encodings",
     "utf16 means BOM FF FE followed by UTF-16LE (what the modifier documents)",
@@ -34,7 +35,8 @@ SHARDS = {"quick": 4, "thorough": 16}
 SYMS = ["a", "z", "é", "€", "\U0001F600", "Ā", " ", "=", "\\*", "\\\\"]
 CHAINS = [["base64"], ["base64offset"], ["wide", "base64"], ["wide", "base64offset"],
           ["utf16be", "base64"], ["utf16be", "base64offset"], ["utf16", "base64"], ["utf16", "base64offset"],
-          ["base64offset", "contains"], ["wide", "base64offset", "contains"], ["wide"], ["utf16be"], ["utf16"]]
+          ["base64offset", "contains"], ["wide", "base64offset", "contains"], ["wide"], ["utf16be"], ["utf16"],
+          ["base64", "base64"], ["wide", "base64", "base64"]]
 
 
 def enc_bytes(text: str, enc: str | None) -> bytes:
@@ -150,6 +152,8 @@ def _check_with(case: dict, bom_override: bytes | None) -> Outcome:
     if kind == "base64":
         got = _strip_wild(v)
         want = b64encode(payload).decode()
+        for _ in range(chain.count("base64") - 1):   # a repeated modifier is applied once per occurrence
+            want = b64encode(want.encode()).decode()
         if got != want:
             out.fail(f"C04:{tag}:value", f"{chain} on {src!r}: {got!r} != standard Base64 {want!r} of {payload.hex()}")
         return out
